@@ -6,7 +6,7 @@
 //! are answered by the bare storage and cross-checked with the store's node-property storage).
 //!
 //!   zm node                                  create_node(&[])                     → id
-//!   zm set <id> <key> <tok>                  set_node_property                    → -
+//!   zm set <id> <key> <tok>                  set_node_property (no-op unless <id> is a live node) → -
 //!   zm remove <id> <key>                     remove_node_property                 → old token | none
 //!   zm delnode <id>                          delete_node                          → true|false
 //!   zm rebuild <key=id.id..,key=..|->        rebuild_zone_maps. The hash maps are seeded randomly
@@ -176,6 +176,9 @@ struct Mirror {
 
 impl Mirror {
     fn set(&mut self, id: u64, k: usize, t: &str) {
+        if !self.live.contains(&id) {
+            return; // the store ignores writes to ids that are not live nodes
+        }
         self.cols[k].retain(|(i, _)| *i != id);
         self.cols[k].push((id, t.to_string()));
     }
@@ -452,8 +455,13 @@ pub fn run(st: &mut ZmSt, args: &[&str]) -> String {
         match a.as_slice() {
             ["node"] => format!("{}", store.create_node(&[]).as_u64()),
             ["set", id, k, v] => {
+                // since 9bbd0dc the store ignores a write to an id that is not a live node; the
+                // bare storage (which has no notion of nodes) mirrors the store's column
+                let live = store.get_node(nid(id)).is_some();
                 store.set_node_property(nid(id), &key(k), untok(v));
-                st.ps.set(nid(id), PropertyKey::new(key(k)), untok(v));
+                if live {
+                    st.ps.set(nid(id), PropertyKey::new(key(k)), untok(v));
+                }
                 "-".into()
             }
             ["remove", id, k] => {
